@@ -320,6 +320,17 @@ def run(db, chk) -> None:
     from .c01 import _shift
     from .c09 import _Prefixed
     _shift(db, _Prefixed(chk, "C11.R9-order-independent-alignment"), rule="C11.R9-order-independent-alignment")
+    # ... nor in a filter object: a filter applied to the frames of two tables must resolve names against the table it is GIVEN each time
+    tfm = db.mod("hta.common.trace_filter")
+    n_call = 0
+    for q_, f_ in sorted(tfm.functions.items()):
+        if not q_.endswith(".__call__"):
+            continue
+        n_call += 1
+        st_ = sorted(H.attr_store_names(f_, "self"))
+        chk.ob("C11.R8-no-id-keyed-state", f"hta.common.trace_filter:{q_} resolves symbol ids afresh on every call (no attribute of the filter is written while filtering)", not st_, tfm.loc(f_), found=st_ or "no store on self",
+               accepted="no store on self inside __call__", why="ids memoised in the filter (re-resolved only when the table's SIZE changes) select rows by another table's numbering when the filter meets a second table of equal size")
+    chk.ob("C11.R8-no-id-keyed-state", "filter classes inspected", True if n_call >= 10 else None, "hta/common/trace_filter.py", found=n_call, accepted=">= 10", nontrivial=False)
     from ..specs.discipline import check_no_shared_state
     check_no_shared_state(db, chk, "C11.R8-no-id-keyed-state", "a memo keyed by symbol id outlives its Trace: the next trace of the process numbers its symbols differently and is classified by the first trace's table")
     from .c01 import _parser
